@@ -39,6 +39,9 @@ def _cases(ck: Check, W, R):
     for fl in base_sets:
         for p in gen.exhaustive(alpha, L):
             cases.append((p, fl, False))
+    for p in gen.bracket_patterns(3 if quick else 4):
+        cases.append((p, W.FORCEUNIX | (W._TRANSLATE if len(p) % 2 else 0), False))
+        cases.append(('a' + p + 'b', W.FORCEUNIX | W.PATHNAME | W.EXTMATCH, len(p) % 3 == 0 and all(ord(c) < 256 for c in p)))
     internal = [W.CASE, W.IGNORECASE, W.RAWCHARS, W.NEGATE, W.MINUSNEGATE, W.PATHNAME, W.DOTMATCH, W.EXTMATCH,
                 W.GLOBSTAR, W.BRACE, W.REALPATH, W.FOLLOW, W.SPLIT, W.MATCHBASE, W.NODIR, W.NEGATEALL, W.GLOBTILDE,
                 W.NOUNIQUE, W.NODOTDIR, W.GLOBSTARLONG, W._TRANSLATE, W._ANCHOR, W._EXTMATCHBASE, W._NOABSOLUTE,
@@ -113,7 +116,9 @@ def run(ck: Check) -> int:
             seen = set()
             for k in range(n):
                 r = R.random()
-                if r < 0.5:
+                if r < 0.15:
+                    p = gen.random_bracket(R) + (gen.random_bracket(R) if R.random() < 0.3 else '')
+                elif r < 0.5:
                     p = gen.random_pattern(R, 8)
                 elif r < 0.8:
                     p = gen.mutate(R, gen.gen_path_pattern(R))
